@@ -239,8 +239,10 @@ def plan(tier, seed):
             shards.append({"kind": "cyc", "n": 4, "maxe": 4, "mod": 96, "rem": r})
         for r in range(96):  # sparse DAGs on 6 variables: every graph with <= 6 edges, two gap patterns, desired {0,2}^6
             shards.append({"kind": "sparse6", "mod": 96, "rem": r})
-        for n in range(1, 61):
-            shards.append({"kind": "fam", "n": n})
+    # deep-narrow families (chains, walled chains, stars, ladders, layered DAGs): cheap (~140 CPU-s for n <= 60) and the
+    # only scope that reaches repeated split / re-merge of the same constraint, so they run in the quick tier too
+    for n in range(1, 61 if tier == "quick" else 101):
+        shards.append({"kind": "fam", "n": n})
     # re-solve path: solve, setDesiredPositions, solve on one solver - every pair of desired vectors
     for r in range(16):
         shards.append({"kind": "resolve", "n": 3, "D": [0, 1, 3], "mod": 16, "rem": r})
